@@ -22,7 +22,8 @@
 
 #define SHOW_STACK sp, memory->read8(sp)
 #define READ_RAM(a) memory->read8(a)
-#define WRITE_RAM(a, b) memory->write8(a, b)
+// The 65816 has a 24 bit address bus.
+#define WRITE_RAM(a, b) memory->write8((a) & 0xffffff, b)
 
 // status register flags
 #define flag_c 0
